@@ -184,6 +184,42 @@ class Tools:
         shutil.rmtree(d, ignore_errors=True)
         return res, info
 
+    # --- whole signatures (round 3): scalars of every class around by-value aggregates, incl. variadic tails
+    def sigx(self, cases, modes=('-ei', '-eg'), static=True):
+        """cases: list of (res, sig, t).  Returns (run, blocks, model, info): run = {mode: {(c, 's'|'S'): 'ok'|'BAD'}},
+        blocks = per case (prototype blk list, call-site blk list) from c2m -S, model = per case dict of the S line"""
+        d = self.path('sigx')
+        os.makedirs(d)
+        lib, main, sigtu = G.sx_tus(cases)
+        for name, text in (('lib.c', lib), ('main.c', main), ('sig.c', sigtu)):
+            open(os.path.join(d, name), 'w').write(text)
+        rc, out, err = vlib.sh(['gcc', '-w', '-O1', '-std=gnu11', '-shared', '-fPIC', os.path.join(d, 'lib.c'), '-o',
+                                os.path.join(d, 'libc08x.so')], timeout=900)
+        if rc != 0:
+            raise vlib.BuildError('gcc failed on the signature library: ' + err[-800:])
+        run, info = {}, {}
+        for mode in modes:
+            rc, out, err = vlib.sh([self.c2m, os.path.join(d, 'main.c'), '-L' + d, '-lc08x', mode], timeout=900, cwd=d)
+            r = {}
+            for l in out.split('\n'):
+                w = l.split()
+                if len(w) == 4 and w[0] == 'X':
+                    r[(int(w[1]), w[2])] = w[3]
+            run[mode] = r
+            info[mode] = 'rc=%d %s' % (rc, err[-300:])
+        blocks, model = None, None
+        if static:
+            mir = os.path.join(d, 'sig.mir')
+            rc, out, err = vlib.sh([self.c2m, os.path.join(d, 'sig.c'), '-S', '-o', mir], timeout=300, cwd=d)
+            info['S'] = 'rc=%d %s' % (rc, err[-300:])
+            blocks = G.sx_mir_blocks(open(mir, errors='replace').read() if os.path.exists(mir) else '', len(cases))
+            rcm, om, em = vlib.run_lines(self.model, [G.sx_model_line(*c) for c in cases])
+            if rcm != 0 or len(om) != len(cases):
+                raise vlib.BuildError('model driver failed (S): rc=%d %s' % (rcm, em[-500:]))
+            model = [dict(x.split('=') for x in o.split()[1:]) for o in om]
+        shutil.rmtree(d, ignore_errors=True)
+        return run, blocks, model, info
+
     def model_sizes(self, decls):
         rcm, om, em = vlib.run_lines(self.model, [G.ty_text(t) for t in decls])
         if rcm != 0 or len(om) != len(decls):
@@ -713,6 +749,142 @@ def pageend_part(chk, tools, decls):
         chk.log('aggregates at the end of a page: %d not intact / killed' % len(seen))
 
 
+SV_BLK = {'M': 'blk0', 'I': 'blk1', 'II': 'blk1', 'S': 'blk2', 'SS': 'blk2', 'IS': 'blk3', 'SI': 'blk4'}
+
+
+def sx_fails(tools, case, mode):
+    run, _, _, info = tools.sigx([case], (mode,), static=False)
+    return [d for d in 'sS' if run[mode].get((0, d)) != 'ok'], info
+
+
+def sx_shrink(tools, case, mode):
+    """smaller failing signature: drop parameters other than the first aggregate under test, then shrink the declaration"""
+    res, sig, t = case
+    steps = 0
+    changed = True
+    while changed and steps < 40:
+        changed = False
+        for k in range(len(sig) - 1, -1, -1):
+            if sig[k] == 'A' and sig.count('A') == 1:
+                continue
+            cand = sig[:k] + sig[k + 1:]
+            if '.' in cand and (cand.index('.') == 0 or cand[cand.index('.') - 1] in 'cbhef' or cand.endswith('.')):
+                continue
+            steps += 1
+            if sx_fails(tools, (res, cand, t), mode)[0]:
+                sig = cand
+                changed = True
+            if steps >= 40:
+                break
+
+    def fails(c):
+        return G.passable(c) and bool(sx_fails(tools, (res, sig, c), mode)[0])
+    small = G.shrink(t, fails, max_steps=30)
+    return res, sig, small
+
+
+def sigx_part(chk, tools, decls, label, per=1, modes=('-ei', '-eg')):
+    """every aggregate inside generated whole signatures: scalars of every class (integer kinds, pointers, enums, float,
+    double, long double) and helper structs before and after it, each register file exactly full / one short / one over
+    when it arrives, result through the hidden pointer or not, variadic tails; run time in both directions (c2m caller ->
+    gcc callee 's', gcc caller -> c2m callee 'S') and c2m -S prototypes + call sites against both Coq models
+    (c2m_csignature, sv_csignature; theorems counters_eq_sysv, csignature_eq_sysv)"""
+    ms = tools.model_classes(decls)
+    sizes = tools.model_sizes(decls)
+    rng = chk.rng('sigx-' + label)
+    cases, acls = [], []
+    for t, m, sz in zip(decls, ms, sizes):
+        a0 = m['args'].split(';')[0].split('+')[0]
+        if 'n' in a0 or has_union_unnamed_bf(t) or has_underaligned_fullwidth_unnamed_bf(t):
+            chk.dist('signature_excluded', 'not compared with gcc (padding eightbyte / gcc artefacts)')
+            continue
+        a = G.sx_aclass(a0, sz, int(m.get('align', '8')))
+        for _ in range(per):
+            res, sig = G.sx_signature(rng, a)
+            cases.append((res, sig, t))
+            acls.append(a)
+    if not cases:
+        return
+    run, blocks, model, info = tools.sigx(cases, modes)
+    bad = []
+    for c, ((res, sig, t), a) in enumerate(zip(cases, acls)):
+        chk.count('X ' + G.sx_text(res, sig, t), nontrivial=True, n=2 * len(modes))
+        tr = G.sx_track(res, sig, a)
+        pos = sig.index('A')
+        ni, nf, words = tr[pos]
+        nx = sig[:pos].count('x')
+        if a['ni']:
+            chk.dist('signature_general_registers_free_minus_needed', str(max(-2, min(2, 6 - ni - a['ni']))))
+        if a['nf']:
+            chk.dist('signature_vector_registers_free_minus_needed', str(max(-2, min(2, 8 - nf - a['nf']))))
+        chk.dist('signature_long_doubles_before_aggregate', str(nx))
+        chk.dist('signature_shape', ('hidden-result-pointer ' if res else '') + ('variadic-tail' if '.' in sig else 'fixed') +
+                 (' aggregate-in-memory' if a['mem'] else ''))
+        chk.dist('signature_stack_words_before_aggregate', str(min(words, 8)))
+        if nx and a['nf'] and nf + a['nf'] <= 8 < nf + nx + a['nf']:
+            chk.dist('signature_boundaries', 'long double counted as SSE would push the aggregate to memory')
+        if nx and a['ni'] and ni + a['ni'] <= 6 < ni + nx + a['ni']:
+            chk.dist('signature_boundaries', 'long double counted as INTEGER would push the aggregate to memory')
+        for ch in set(sig):
+            if ch in G.SX_SCALARS:
+                chk.dist('signature_scalar_kinds', G.SX_SCALARS[ch][0])
+        for mode in modes:
+            for d in 'sS':
+                st = run[mode].get((c, d), 'missing')
+                chk.dist('signature_runs', 'ok' if st == 'ok' else 'BAD')
+                if st != 'ok':
+                    bad.append((c, mode, d, st))
+        # the static tie
+        m = model[c]
+        mc = [x for x in m['c2m'].split(',') if x != '-']
+        sv = [x for x in m['sv'].split(',') if x != '-']
+        proto, call = blocks[c]
+        nnamed = sum(1 for ch in sig.split('.')[0] if ch not in G.SX_SCALARS)
+        obj = dict(kind='sigstatic', res=res, sig=sig, decl=G.ty_text(t), c2m_proto=proto, c2m_call=call, model_c2m=mc, model_sysv=sv,
+                   counters=m.get('ctr'), sysv_counters=m.get('svctr'))
+        if proto is None or call is None:
+            DEFERRED.append(('tie:signature-unreadable', obj, 'c2m -S shows no prototype / call for the generated signature ' + G.sx_text(res, sig, t)))
+            chk.dist('signature_static', 'unreadable')
+        elif proto != mc[:nnamed] or call != mc:
+            DEFERRED.append(('tie:model-c2m-signature', obj, 'the block types c2m gives the aggregates of a whole signature (c2m -S: prototype %s, call site %s) '
+                             'are not those of the Coq model c2m_csignature (%s; theorems counters_eq_sysv, csignature_eq_sysv) on: %s'
+                             % (proto, call, mc, G.sx_text(res, sig, t))))
+            chk.dist('signature_static', 'model-c2m')
+        elif m.get('ok') == '1' and mc != [SV_BLK.get(x.upper(), '?') for x in sv]:
+            DEFERRED.append(('tie:signature-models-differ', obj, 'the c2mir and SysV signature models differ on: ' + G.sx_text(res, sig, t)))
+            chk.dist('signature_static', 'models-differ')
+        else:
+            chk.dist('signature_static', 'c2m -S = c2m_csignature = sv_csignature')
+    chk.log('%s: %d signatures x 2 directions x %s: %s' % (label, len(cases), '/'.join(modes), '%d failures' % len(bad) if bad else 'all intact'))
+    seen = set()
+    nrep = 0
+    for c, mode, d, st in bad:
+        if nrep >= 3:
+            break
+        case = cases[c]
+        ds, inf = sx_fails(tools, case, mode)
+        if not ds:
+            continue      # a casualty of an earlier crash in the batch
+        nrep += 1
+        res, sig, small = sx_shrink(tools, case, mode)
+        txt = G.sx_text(res, sig, small)
+        if txt in seen:
+            continue
+        seen.add(txt)
+        ds, inf = sx_fails(tools, (res, sig, small), mode)
+        chk.finding('sigpass:' + txt, dict(kind='sigpass', res=res, sig=sig, decl=G.ty_text(small), mode=mode, directions=ds,
+                                          original=G.sx_text(*case), info=inf),
+                    'arguments do not arrive intact between c2m (%s) and gcc code (direction %s: s = c2m caller -> gcc callee, S = gcc caller -> c2m callee) '
+                    'for the signature %s [<1: result through the hidden pointer>:<parameters: c b h i u l q p e integer-class scalars, f d float/double, '
+                    'x long double, A the aggregate, %s, . start of the variadic tail>]'
+                    % (mode, '/'.join(ds), txt, ', '.join('%s struct %s' % (k, v[0][1:]) for k, v in sorted(G.SX_HELPERS.items()))))
+    if bad and not seen:
+        c, mode, d, st = bad[0]
+        chk.finding('harness:sigpass-unstable', dict(kind='sigpass', res=cases[c][0], sig=cases[c][1], decl=G.ty_text(cases[c][2]), mode=mode),
+                    'a signature case failed in its batch (%s) but not alone: %s' % (st, G.sx_text(*cases[c])), no_input=True)
+    return bad
+
+
 def libc_part(chk, tools):
     """harness/c08_libc.c under c2m (-ei, -eg) and gcc: identical output lines"""
     src = os.path.join(vlib.VERIF, 'harness', 'c08_libc.c')
@@ -786,6 +958,7 @@ def run(chk):
         if pcorpus:
             classify_part(chk, tools, pcorpus, 'passing corpus (classification)')
             passing_part(chk, tools, pcorpus, 'passing corpus')
+            sigx_part(chk, tools, pcorpus, 'signatures (passing corpus)', per=1 if quick else 4)
         kb, kper = (2, 250) if quick else (20, 500)
         for b in range(kb):
             ds = gen_small(chk, kper, 'classify%d' % b)
@@ -795,7 +968,9 @@ def run(chk):
             classify_part(chk, tools, ds, 'classify batch %d' % b)
         pb, pper = (1, 180) if quick else (12, 400)
         for b in range(pb):
-            passing_part(chk, tools, gen_small(chk, pper, 'passing%d' % b), 'passing batch %d' % b)
+            pds = gen_small(chk, pper, 'passing%d' % b)
+            passing_part(chk, tools, pds, 'passing batch %d' % b)
+            sigx_part(chk, tools, pds, 'signatures (passing batch %d)' % b, per=1 if quick else 2)
         # every size 1..17 (and a few larger ones), every class: the return path picks its access types by sizeof
         for b in range(1 if quick else 6):
             nds = G.ret_size_decls(chk.rng('retsize%d' % b), 3 if quick else 8)
@@ -807,6 +982,7 @@ def run(chk):
                                 'the generator of aggregates of an exact size is wrong about ' + G.ty_text(t), no_input=True)
             classify_part(chk, tools, ds, 'sized aggregates %d (classification)' % b)
             passing_part(chk, tools, ds, 'sized aggregates %d' % b)
+            sigx_part(chk, tools, ds, 'signatures (sized aggregates %d)' % b, per=1 if quick else 2)
             if b == 0:
                 pageend_part(chk, tools, ds)
         libc_part(chk, tools)
@@ -886,6 +1062,17 @@ def replay(chk, path):
             rc, st, err = pageend_run(tools, [t], rp.get('mode', '-ei'))
             print('decl :', rp['decl'], ' mode', rp.get('mode'), ' rc', rc, ' state', st.get(0, 'killed'))
             return 0 if st.get(0) == 'ok' else 1
+        if rp.get('kind') in ('sigpass', 'sigstatic'):
+            t = G.parse_text(rp['decl'])
+            case = (rp['res'], rp['sig'], t)
+            run, blocks, model, info = tools.sigx([case])
+            print('signature:', G.sx_text(*case))
+            print('run      :', {m: sorted(r.items()) for m, r in run.items()}, info)
+            print('c2m -S   : prototype', blocks[0][0], ' call site', blocks[0][1])
+            print('models   :', model[0])
+            mc = [x for x in model[0]['c2m'].split(',') if x != '-']
+            okrun = all(run[m].get((0, d)) == 'ok' for m in run for d in 'sS')
+            return 0 if okrun and blocks[0][1] == mc else 1
         if rp.get('kind') == 'passing':
             t = G.parse_text(rp['decl'])
             pos = rp.get('index', 0)
